@@ -375,9 +375,9 @@ def main(argv):
     text = {i: t for i, _, _, t in lines}
     impl_out, model_out = {}, {}
     if impl:
-        impl_out = chk.run_cases(impl, ["%s %s" % (i, t) for i, _, m, t in lines if m not in ("P", "Q")], timeout=900)
+        impl_out = chk.run_cases(impl, ["%s %s" % (i, t) for i, _, m, t in lines if m not in ("P", "Q")], timeout=300)
     if impl_pb:
-        impl_out.update(chk.run_cases(impl_pb, ["%s %s" % (i, t) for i, _, m, t in lines if m in ("P", "Q")], timeout=900))
+        impl_out.update(chk.run_cases(impl_pb, ["%s %s" % (i, t) for i, _, m, t in lines if m in ("P", "Q")], timeout=300))
     if model:
         model_out = chk.run_cases(model, ["%s %s" % (i, t) for i, _, m, t in lines if m not in ("S", "P", "A", "Q")], timeout=900)
 
